@@ -146,4 +146,19 @@ example : mpzRoot (-27) 3 = .ok (-3, true) ∧ mpzRootrem (-30) 3 = .ok (-3, -3)
     mpzRoot (-4) 2 = .error "sqrtneg" ∧ mpzRoot 5 0 = .error "div0" ∧ mpzRoot (-5) 0 = .error "sqrtneg" := by
   decide +kernel
 
+/-- mpn_sqrtrem1 (sqrtrem.c:145-196) on a normalised limb `B/4 ≤ a < B`: the `approx_tab` seed, its
+    correction and the two precision-doubling passes (8 → 16 → 32 bits), every operation reduced mod `B`
+    as the C's `mp_limb_t` arithmetic, return exactly `(⌊√a⌋, a − ⌊√a⌋²)`.  Uses the kernel-checked fact
+    `approxTab_ok` about the REGENERATED seed table (`tab[i] = ⌊√(256·(i+64))⌋`) and Zimmermann's step
+    lemma `zstep` (at most one correction per pass). -/
+theorem sqrtrem1_spec (a : Nat) (h1 : B / 4 ≤ a) (h2 : a < B) :
+    sqrtrem1 a = (Nat.sqrt a, a - Nat.sqrt a * Nat.sqrt a) := by
+  obtain ⟨e, r⟩ := sqrtrem1_sq a h1 h2
+  obtain ⟨d1, d2⟩ := sqrt_of_rem e r
+  exact Prod.ext d1 d2
+
+-- non-vacuity: smallest and largest normalised limb, and a limb just below a square
+example : sqrtrem1 (B / 4) = (2 ^ 31, 0) ∧ sqrtrem1 (B - 1) = (2 ^ 32 - 1, 2 * (2 ^ 32 - 1)) ∧
+    sqrtrem1 (3037000500 * 3037000500 - 1) = (3037000499, 2 * 3037000499) := by decide +kernel
+
 end Mpir.Root
